@@ -1,4 +1,5 @@
 import EchoModel.C09
+import EchoProofs.C08
 /-!
 # C09 — theorems: explicit source tags, and path < query < body
 
@@ -406,6 +407,26 @@ theorem bindF_top (src : Src) (data files : Data) :
         have ih := bindF_top src data files rest vs i m e (by simpa [fieldAt] using h) hexp
           (by simpa using hi) (by simpa using hok)
         simpa using ih
+
+/-- **C09_empty_value_overrides** (round 7) — a source that carries the key with an EMPTY first
+    value (`?name=`, form `name=`) still writes the field: whatever it held — the value an earlier
+    source bound, a default of the caller — it ends up as the zero value of its kind.  (With
+    `C09_precedence`: path `name=joe`, query `name=` ⇒ `""`.) -/
+theorem C09_empty_value_overrides (e : Elem) (tag : List Char) (data : Data) (cur : Option Val)
+    (rest : List (List Char)) (ht : tag ≠ []) (hl : lookup data tag = some ([] :: rest)) :
+    (∀ d, e = .num d → stepLeaf e tag data cur = some (.leaf (.one (.int 0))))
+    ∧ (e = .bool → stepLeaf e tag data cur = some (.leaf (.one (.bool false))))
+    ∧ (e = .str → stepLeaf e tag data cur = some (.leaf (.one (.opq [])))) := by
+  refine ⟨?_, ?_, ?_⟩
+  · intro d he
+    subst he
+    simp [stepLeaf, ht, hl, (C08.C08_empty_struct noExt d).1]
+  · intro he
+    subst he
+    simp [stepLeaf, ht, hl, (C08.C08_empty_struct noExt .vbUnix).2.1]
+  · intro he
+    subst he
+    simp [stepLeaf, ht, hl, (C08.C08_empty_struct noExt .vbUnix).2.2]
 
 /-! ## Bind: path, then query (GET / DELETE / HEAD), then body -/
 
@@ -1356,5 +1377,13 @@ example : (bind (.struct exFs) (.struct exVs) { exReq ['P','O','S','T'] mForm tr
     ∧ flatD (bind (.struct exFs) (.struct exVs) { exReq ['P','O','S','T'] mForm true with hasBody := BodyLen.unknown.hasBody }).1
       = flatVs [.leaf (.one (.int 10)), .leaf (.one (.bool false)), .struct [.leaf (.one (.opq ['f']))], .leaf .nil] := by
   decide +kernel
+
+-- round 7: GET /:id?id= — the path gives 10, the query carries `id` with an empty value: 0, not 10;
+-- and `n=` clears the nested string that held "o"
+example : flatD (bind (.struct exFs) (.struct exVs)
+      { exReq ['G','E','T'] [] false with query := [(['i','d'], [[]]), (['n'], [[]])] }).1
+    = flatVs [.leaf (.one (.int 0)), .leaf (.one (.bool false)), .struct [.leaf (.one (.opq []))], .leaf .nil] := by
+  decide +kernel
+example : lookup [(['i','d'], [[]])] ['i','d'] = some [[]] := by decide
 
 end C09
